@@ -169,6 +169,14 @@ func runC09(c *Ctx) {
 		base.With(zap.Any("cfg", struct{ A, B int }{1, 2})).Named("r"),
 		base.Named("r2").With(zap.Reflect("m", map[string]string{"x": "y"})),
 	}
+	// a logger that already carries hooks added one WithOptions at a time
+	// (derivations from it must not share any hook storage)
+	nop := func(zapcore.Entry) error { return nil }
+	hooked3 := base
+	for i := 0; i < 1+g.Draw(5); i++ {
+		hooked3 = hooked3.WithOptions(zap.Hooks(nop))
+	}
+	w.loggers = append(w.loggers, hooked3)
 	for _, l := range w.loggers {
 		w.sugars = append(w.sugars, l.Sugar())
 	}
@@ -211,7 +219,7 @@ func runC09(c *Ctx) {
 	// unsynchronised state behind that operation — happens under contention
 	// before anything else has ordered the tasks
 	burst := g.Chance(2)
-	burstOp := c09op{kind: enabledKinds[g.Draw(len(enabledKinds))], a: g.Draw(9), b: g.Draw(8), c: g.Draw(16)}
+	burstOp := c09op{kind: enabledKinds[g.Draw(len(enabledKinds))], a: g.Draw(10), b: g.Draw(8), c: g.Draw(16)}
 	for t := range progs {
 		if burst {
 			progs[t] = append(progs[t], burstOp)
@@ -221,7 +229,7 @@ func runC09(c *Ctx) {
 		}
 		n := 1 + g.Draw(maxOps)
 		for i := 0; i < n; i++ {
-			op := c09op{kind: enabledKinds[g.Draw(len(enabledKinds))], a: g.Draw(9), b: g.Draw(8), c: g.Draw(16)}
+			op := c09op{kind: enabledKinds[g.Draw(len(enabledKinds))], a: g.Draw(10), b: g.Draw(8), c: g.Draw(16)}
 			if op.kind == 11 {
 				usesBWS = true
 			}
@@ -338,7 +346,11 @@ func c09exec(c *Ctx, w *c09world, t, i int, op c09op) {
 		case 2:
 			ch = l.Named(fmt.Sprintf("t%d", t))
 		default:
-			ch = l.WithOptions(zap.Fields(zap.Int("t", t)), zap.AddCallerSkip(0))
+			if op.c%2 == 0 {
+				ch = l.WithOptions(zap.Fields(zap.Int("t", t)), zap.AddCallerSkip(0))
+			} else {
+				ch = l.WithOptions(zap.Hooks(func(zapcore.Entry) error { return nil }))
+			}
 		}
 		ch.Info("child", zap.Int("i", i))
 	case 4:
